@@ -1,1 +1,357 @@
 // Kani harnesses compiled inside rs-matter/src/utils/storage/ringbuf.rs (module `verif_kani`).
+
+mod c18 {
+    use super::*;
+
+    impl<const N: usize> RingBuf<N> {
+        /// Representation invariant of a ring (true of every state reachable through the API):
+        /// storage is either untouched (never pushed: empty, cursors 0) or fully materialised;
+        /// cursors are in range; an empty ring has `start == end`.
+        pub(crate) fn c18_wf(&self) -> bool {
+            (self.buf.len() == N || (self.buf.len() == 0 && !self.non_empty && self.start == 0 && self.end == 0))
+                && self.start < N
+                && self.end < N
+                && (self.non_empty || self.start == self.end)
+        }
+
+        /// Abstract length: cyclic distance from `start` to `end`; the 0/N ambiguity is resolved by `non_empty`.
+        pub(crate) fn c18_len(&self) -> usize {
+            let d = if self.end >= self.start { self.end - self.start } else { N - self.start + self.end };
+            if d == 0 && self.non_empty {
+                N
+            } else {
+                d
+            }
+        }
+
+        /// `view[i]` (requires a materialised ring and `i < N`).
+        pub(crate) fn c18_at(&self, i: usize) -> u8 {
+            let k = self.start + i;
+            self.buf[if k >= N { k - N } else { k }]
+        }
+
+        /// An arbitrary materialised ring: arbitrary storage bytes, arbitrary cursors (caller assumes `c18_wf`).
+        pub(crate) fn c18_any() -> Self {
+            let arr: [u8; N] = kani::any();
+            let mut v = crate::utils::storage::Vec::<u8, N>::new();
+            unsafe {
+                v.set_len(N);
+            }
+            v.as_mut_slice().copy_from_slice(&arr);
+            RingBuf { buf: v, start: kani::any(), end: kani::any(), non_empty: kani::any() }
+        }
+
+        /// The never-pushed ring.
+        pub(crate) fn c18_fresh() -> Self {
+            RingBuf::new()
+        }
+
+        pub(crate) fn c18_storage_len(&self) -> usize {
+            self.buf.len()
+        }
+
+        // -------------------------------------------------------------------------------------
+        // Abstract FIFO model of a ring = the CONTRACT of push / pop / len / clear, used as stubs by
+        // the BTP session harnesses (symbolic reads/writes inside the 3166-byte storage embedded in
+        // `Session` do not close in CBMC; a stand-alone array indexed by view position does).
+        //   view = C18_BASE[C18_POP .. C18_BASE_LEN] ++ C18_LOG[.. C18_LOG_LEN]
+        // The `RingBuf` value itself is left untouched by the stubs. That the real implementation
+        // refines this queue is what the twin harnesses c18_ring_* prove for all states of RingBuf<8>.
+        // -------------------------------------------------------------------------------------
+
+        /// Start a model whose view is `len` arbitrary bytes.
+        pub(crate) fn c18_model_init(len: usize) {
+            kani::assume(len <= N);
+            kani::assert(N <= BASEN, "C18.ring.model_base_capacity_suffices");
+            unsafe {
+                C18_BASE = kani::any();
+                C18_BASE_LEN = len;
+                C18_POP = 0;
+                C18_LOG_LEN = 0;
+            }
+        }
+
+        /// View length.
+        pub(crate) fn c18_mlen(&self) -> usize {
+            unsafe { C18_BASE_LEN - C18_POP + C18_LOG_LEN }
+        }
+
+        /// `view[i]` (requires `i < c18_mlen()`).
+        pub(crate) fn c18_mat(&self, i: usize) -> u8 {
+            unsafe {
+                let l = C18_BASE_LEN - C18_POP;
+                if i < l {
+                    C18_BASE[C18_POP + i]
+                } else {
+                    C18_LOG[i - l]
+                }
+            }
+        }
+
+        /// Contract of `push` for a slice that fits (the only way BTP pushes; asserted): `view' = view ++ data`.
+        pub(crate) fn c18_push_log(&mut self, data: &[u8]) -> usize {
+            kani::assert(data.len() <= N - self.c18_mlen(), "C18.ring.btp_push_always_fits");
+            unsafe {
+                kani::assert(C18_LOG_LEN + data.len() <= LOGN, "C18.ring.model_log_capacity_suffices");
+                let mut k = 0;
+                while k < data.len() {
+                    C18_LOG[C18_LOG_LEN + k] = data[k];
+                    k += 1;
+                }
+                C18_LOG_LEN += data.len();
+            }
+            self.c18_mlen()
+        }
+
+        /// Contract of `len` (`free` is the real code on top of it).
+        pub(crate) fn c18_len_log(&self) -> usize {
+            self.c18_mlen()
+        }
+
+        /// Contract of `pop`: moves `min(|out|, len)` bytes from the front of the view to `out`.
+        pub(crate) fn c18_pop_model(&mut self, out: &mut [u8]) -> usize {
+            unsafe {
+                kani::assert(C18_LOG_LEN == 0, "C18.ring.model_pop_without_pending_log");
+                let mut k = 0;
+                while k < out.len() && C18_POP < C18_BASE_LEN {
+                    out[k] = C18_BASE[C18_POP];
+                    C18_POP += 1;
+                    k += 1;
+                }
+                k
+            }
+        }
+
+        /// Contract of `clear`.
+        pub(crate) fn c18_clear_model(&mut self) {
+            unsafe {
+                C18_POP = C18_BASE_LEN;
+                C18_LOG_LEN = 0;
+            }
+        }
+    }
+
+    /// State of the abstract FIFO model (see `c18_model_init`).
+    const BASEN: usize = 3200;
+    const LOGN: usize = 32;
+    static mut C18_BASE: [u8; BASEN] = [0; BASEN];
+    static mut C18_BASE_LEN: usize = 0;
+    static mut C18_POP: usize = 0;
+    static mut C18_LOG: [u8; LOGN] = [0; LOGN];
+    static mut C18_LOG_LEN: usize = 0;
+
+    const N: usize = 8;
+
+    /// Every `RingBuf<8>` state satisfying the invariant: materialised (arbitrary storage and cursors) or fresh.
+    fn any_ring(fresh: bool) -> RingBuf<N> {
+        let rb = if fresh { RingBuf::<N>::c18_fresh() } else { RingBuf::<N>::c18_any() };
+        kani::assume(rb.c18_wf());
+        rb
+    }
+
+    /// Snapshot of the view (unrolled over the twin's capacity; entries past the length are 0).
+    fn view(rb: &RingBuf<N>) -> ([u8; N], usize) {
+        let l = rb.c18_len();
+        let f = |i: usize| if i < l { rb.c18_at(i) } else { 0 };
+        ([f(0), f(1), f(2), f(3), f(4), f(5), f(6), f(7)], l)
+    }
+
+    /// len / free / is_empty / is_full agree with the abstract view.
+    // TIER: quick
+    // KIND: complete
+    #[kani::proof]
+    fn c18_ring_len_free() {
+        let rb = any_ring(kani::any());
+        let l = rb.c18_len();
+        kani::assert(l <= N, "C18.ring.view_len_le_capacity");
+        kani::assert(rb.len() == l, "C18.ring.len_is_view_len");
+        kani::assert(rb.free() == N - l, "C18.ring.free_is_capacity_minus_len");
+        kani::assert(rb.is_empty() == (l == 0), "C18.ring.is_empty_iff_len_0");
+        kani::assert(rb.is_full() == (l == N), "C18.ring.is_full_iff_len_capacity");
+        kani::cover!(l == N, "full");
+        kani::cover!(l == 0 && rb.c18_storage_len() == 0, "fresh");
+        kani::cover!(l == 3 && rb.end < rb.start, "wrapped");
+    }
+
+    /// push(data): the new view is the last `min(N, len + |data|)` bytes of `view ++ data`; in
+    /// particular when `|data| <= free` (the only way BTP calls it) nothing is dropped and the
+    /// view is exactly `view ++ data`. All ring states; data of every length 0..=12 (> capacity).
+    // TIER: quick
+    // KIND: bounded (twin RingBuf<8>, all materialised states; pushed slice <= 12 bytes)
+    #[kani::proof]
+    #[kani::unwind(4)]
+    fn c18_ring_push() {
+        check_push(false);
+    }
+
+    /// Sanity of the abstract FIFO model used as contract stubs by the session harnesses: it is the
+    /// queue the contracts above talk about (push appends, pop removes a prefix, clear empties).
+    // TIER: quick
+    // KIND: bounded (model of capacity 8; slices <= 8 bytes)
+    #[kani::proof]
+    #[kani::unwind(10)]
+    fn c18_ring_queue_model() {
+        let l0: usize = kani::any();
+        RingBuf::<N>::c18_model_init(l0);
+        let mut rb = RingBuf::<N>::new();
+        let f = |i: usize| if i < l0 { rb.c18_mat(i) } else { 0 };
+        let old = [f(0), f(1), f(2), f(3), f(4), f(5), f(6), f(7)];
+        kani::assert(rb.c18_mlen() == l0 && rb.c18_len_log() == l0, "C18.ring.model_init_len");
+        let data: [u8; N] = kani::any();
+        let m: usize = kani::any();
+        kani::assume(m <= N);
+        let j: usize = kani::any();
+        if kani::any() {
+            kani::assume(m <= N - l0);
+            let ret = rb.c18_push_log(&data[..m]);
+            kani::assert(ret == l0 + m && rb.c18_mlen() == l0 + m, "C18.ring.model_push_len");
+            if j < l0 + m {
+                kani::assert(rb.c18_mat(j) == if j < l0 { old[j] } else { data[j - l0] }, "C18.ring.model_push_appends");
+            }
+            kani::cover!(m == 3 && l0 == 5, "model push fills");
+        } else {
+            let mut out = data;
+            let ret = rb.c18_pop_model(&mut out[..m]);
+            kani::assert(ret == if m < l0 { m } else { l0 } && rb.c18_mlen() == l0 - ret, "C18.ring.model_pop_len");
+            if j < N {
+                kani::assert(out[j] == if j < ret { old[j] } else { data[j] }, "C18.ring.model_pop_delivers_prefix");
+            }
+            if j < l0 - ret {
+                kani::assert(rb.c18_mat(j) == old[ret + j], "C18.ring.model_pop_keeps_rest");
+            }
+            rb.c18_clear_model();
+            kani::assert(rb.c18_mlen() == 0, "C18.ring.model_clear_empties");
+            kani::cover!(ret == 3 && l0 == 5, "model partial pop");
+        }
+    }
+
+    /// The same contract from the never-pushed state (storage is materialised by the first push).
+    // TIER: quick
+    // KIND: bounded (twin RingBuf<8>, fresh state; pushed slice <= 12 bytes)
+    #[kani::proof]
+    #[kani::unwind(10)]
+    fn c18_ring_push_fresh() {
+        check_push(true);
+    }
+
+    fn check_push(fresh: bool) {
+        let mut rb = any_ring(fresh);
+        const M: usize = 12;
+        let data: [u8; M] = kani::any();
+        let m: usize = kani::any();
+        kani::assume(m <= M);
+        let (old, old_len) = view(&rb);
+
+        let ret = rb.push(&data[..m]);
+
+        let total = old_len + m;
+        let new_len = if total > N { N } else { total };
+        let drop = total - new_len;
+        kani::assert(rb.c18_wf(), "C18.ring.push_keeps_invariant");
+        kani::assert(rb.c18_storage_len() == N, "C18.ring.push_materialises_storage");
+        kani::assert(ret == new_len && rb.c18_len() == new_len && rb.len() == new_len, "C18.ring.push_len");
+        kani::assert(rb.free() == N - new_len, "C18.ring.push_free");
+        kani::assert(!(m <= N - old_len) || drop == 0, "C18.ring.push_that_fits_drops_nothing");
+        let j: usize = kani::any();
+        if j < new_len {
+            let k = drop + j; // index into old ++ data
+            let expect = if k < old_len { old[k] } else { data[k - old_len] };
+            kani::assert(rb.c18_at(j) == expect, "C18.ring.push_view_is_suffix_of_old_then_data");
+        }
+
+        kani::cover!(fresh || (m > 0 && drop == 0 && old_len > 0), "append that fits");
+        kani::cover!(fresh || (drop > 0 && drop < old_len), "oldest bytes dropped");
+        kani::cover!(m > N, "slice longer than capacity");
+        kani::cover!(m == 0, "empty slice");
+        kani::cover!(old_len == 0 && m == 3, "push into empty");
+    }
+
+    /// pop(out): returns `min(|out|, len)`, copies the first bytes of the view in order, the rest
+    /// of `out` is untouched, the new view is the old one without its first `ret` bytes.
+    // TIER: quick
+    // KIND: bounded (twin RingBuf<8>, all states; output slice <= 10 bytes)
+    #[kani::proof]
+    #[kani::unwind(4)]
+    fn c18_ring_pop() {
+        let mut rb = any_ring(kani::any());
+        const K: usize = 10;
+        let out0: [u8; K] = kani::any();
+        let mut out = out0;
+        let k: usize = kani::any();
+        kani::assume(k <= K);
+        let (old, old_len) = view(&rb);
+
+        let ret = rb.pop(&mut out[..k]);
+
+        kani::assert(ret == if k < old_len { k } else { old_len }, "C18.ring.pop_returns_min_of_room_and_len");
+        kani::assert(rb.c18_wf(), "C18.ring.pop_keeps_invariant");
+        kani::assert(rb.c18_len() == old_len - ret && rb.len() == old_len - ret, "C18.ring.pop_len");
+        let i: usize = kani::any();
+        kani::assume(i < K);
+        if i < ret {
+            kani::assert(out[i] == old[i], "C18.ring.pop_delivers_view_prefix_in_order");
+        } else {
+            kani::assert(out[i] == out0[i], "C18.ring.pop_leaves_rest_of_out_untouched");
+        }
+        let j: usize = kani::any();
+        if j < old_len - ret {
+            kani::assert(rb.c18_at(j) == old[ret + j], "C18.ring.pop_view_is_old_view_minus_prefix");
+        }
+
+        kani::cover!(ret > 0 && ret < old_len, "partial pop");
+        kani::cover!(ret == old_len && old_len == N, "drain a full ring");
+        kani::cover!(k > old_len, "out larger than content");
+        kani::cover!(ret == 5 && old_len == 7, "wrapped pop");
+    }
+
+    /// pop_byte / push_byte: the single-byte forms (pop_byte is what `fetch_message` uses for the length prefix).
+    // TIER: quick
+    // KIND: complete
+    #[kani::proof]
+    #[kani::unwind(10)]
+    fn c18_ring_byte_ops() {
+        let mut rb = any_ring(kani::any());
+        let (old, old_len) = view(&rb);
+        if kani::any() {
+            let r = rb.pop_byte();
+            kani::assert(r.is_some() == (old_len > 0), "C18.ring.pop_byte_some_iff_non_empty");
+            if let Some(b) = r {
+                kani::assert(b == old[0], "C18.ring.pop_byte_is_first");
+                kani::assert(rb.c18_len() == old_len - 1, "C18.ring.pop_byte_len");
+                let j: usize = kani::any();
+                if j < old_len - 1 {
+                    kani::assert(rb.c18_at(j) == old[j + 1], "C18.ring.pop_byte_shifts_view");
+                }
+            } else {
+                kani::assert(rb.c18_len() == 0, "C18.ring.pop_byte_none_keeps_empty");
+            }
+            kani::assert(rb.c18_wf(), "C18.ring.pop_byte_keeps_invariant");
+            kani::cover!(r.is_some() && old_len == 1, "pop the last byte");
+        } else {
+            let b: u8 = kani::any();
+            let ret = rb.push_byte(b);
+            let new_len = if old_len == N { N } else { old_len + 1 };
+            kani::assert(ret == new_len && rb.c18_len() == new_len, "C18.ring.push_byte_len");
+            kani::assert(rb.c18_at(new_len - 1) == b, "C18.ring.push_byte_is_last");
+            let j: usize = kani::any();
+            if j < new_len - 1 {
+                let src = if old_len == N { j + 1 } else { j };
+                kani::assert(rb.c18_at(j) == old[src], "C18.ring.push_byte_keeps_or_shifts_view");
+            }
+            kani::assert(rb.c18_wf(), "C18.ring.push_byte_keeps_invariant");
+            kani::cover!(old_len == N, "push_byte into a full ring");
+        }
+    }
+
+    /// clear / new: empty view, invariant holds.
+    // TIER: quick
+    // KIND: complete
+    #[kani::proof]
+    fn c18_ring_clear_new() {
+        let mut rb = any_ring(kani::any());
+        rb.clear();
+        kani::assert(rb.c18_wf() && rb.c18_len() == 0 && rb.len() == 0 && rb.free() == N, "C18.ring.clear_empties");
+        let f = RingBuf::<N>::new();
+        kani::assert(f.c18_wf() && f.c18_len() == 0 && f.free() == N && f.is_empty(), "C18.ring.new_is_empty");
+    }
+}
